@@ -102,13 +102,22 @@ def run(tier, seed):
                 except tlc.MachineryError:
                     raise
                 except Exception as ex:
-                    raise tlc.MachineryError('fresh objects raise for %s%s: %s %s' % (action, args, type(ex).__name__, ex))
+                    # the call is not possible with these arguments at all (e.g. naive order dates on a zone-aware grid): the objects must
+                    # fail the same way; the history ends here (a failed call may leave objects half set up, which the model does not describe)
+                    cache[key] = ('raised', type(ex).__name__)
+                    want = cache[key]
                 try:
                     got = HY.perform(U, action, args, stt)
                 except tlc.MachineryError:
                     raise
                 except Exception as ex:
                     got = ('raised', type(ex).__name__, str(ex)[:100])
+                if want[0] == 'raised':
+                    chk.cnt['calls_impossible_for_fresh_objects_too'] += 1
+                    if got[:2] != want[:2]:
+                        chk.violation(dict(check='history', action=action, outcome='fresh_raises_but_objects_do_not'), 'fresh objects raise %s, the used objects %s' % (want[1], got[:2]),
+                                      dict(history=[(x[2], x[3]) for x in walk[:k + 1]]))
+                    break
                 last = last_next
                 covered.add((src, dst, action, tuple(args)))
                 if got != want:
